@@ -7,8 +7,10 @@ import (
 	"compress/gzip"
 	"fmt"
 	"os"
+	"path/filepath"
 	"sort"
 	"strings"
+	"syscall"
 	"time"
 
 	"github.com/klauspost/compress/zstd"
@@ -252,7 +254,17 @@ func runC04(planAny any, cfg simrt.Config) *simkit.Outcome {
 				if rq.B.Kind == "lp" {
 					path = "/api/v1/write/line-protocol?precision=" + rq.B.Prec
 				}
+				var release func()
+				if rq.B.Kind != "lp" && msgpackReachesHugeBin32(body) {
+					// the server is about to allocate (and, on reused address
+					// space, clear) gigabytes for real: one such request at a
+					// time on this machine, and tell the watchdog
+					release = blowupGate()
+				}
 				st, rb := n.post(path, map[string]string{"x-arc-database": rq.B.DB}, body)
+				if release != nil {
+					release()
+				}
 				rc.status, rc.got, rc.alloc = st, true, n.lastAlloc
 				rc.resp = rb
 				if len(rb) > 160 {
@@ -553,4 +565,26 @@ func skip(pos *int, n, l int) bool {
 	}
 	*pos += n
 	return true
+}
+
+// blowupGate serialises, across all worker processes of the machine, the
+// requests that make the server allocate gigabytes (an advisory lock on a file
+// next to the scratch directories), and extends the watchdog's allowance for
+// the step: 14 workers each page-faulting 4 GiB at once stalled this VM for
+// minutes of real time.
+func blowupGate() func() {
+	done := simrt.WatchdogGrace(30 * time.Minute)
+	f, err := os.OpenFile(filepath.Join(os.TempDir(), "verif-c04-blowup.lock"), os.O_CREATE|os.O_RDWR, 0o600)
+	if err != nil {
+		return done
+	}
+	if err := syscall.Flock(int(f.Fd()), syscall.LOCK_EX); err != nil {
+		f.Close()
+		return done
+	}
+	return func() {
+		syscall.Flock(int(f.Fd()), syscall.LOCK_UN)
+		f.Close()
+		done()
+	}
 }
